@@ -2,6 +2,7 @@
 # usage: tools/try_seed.sh <patch.diff> <tier> <ID> [<ID>...]
 # Applies the patch to a SCRATCH WORKTREE of /repo's HEAD (never to /repo itself, so it can run next to anything else),
 # runs the checks against it (FORSYS_REPO), removes the worktree. Evidence files are not touched.
+VROOT=$(cd "$(dirname "$0")/.." && pwd)
 patch=$(realpath "$1"); tier=$2; shift 2
 wt=$(mktemp -d /tmp/tryseed.XXXXXX)
 rmdir "$wt"
@@ -9,6 +10,6 @@ git -C /repo worktree add -q --detach "$wt" HEAD || exit 9
 trap 'git -C /repo worktree remove --force "$wt" >/dev/null 2>&1' EXIT
 if ! git -C "$wt" apply --whitespace=nowarn "$patch"; then echo "patch does not apply"; exit 9; fi
 for id in "$@"; do
-  out=$(cd /verif && FORSYS_REPO="$wt" VERIF_KEEP_EVIDENCE=1 ./check $id $tier 2>&1); rc=$?
+  out=$(cd "$VROOT" && FORSYS_REPO="$wt" VERIF_KEEP_EVIDENCE=1 ./check $id $tier 2>&1); rc=$?
   echo "== $id $tier rc=$rc"; echo "$out" | grep -E "VIOLATION|what:|KNOWN-FINDING|HARNESS" | head -8
 done
